@@ -1208,6 +1208,12 @@ func runC03(c *Ctx) {
 			c.Undecided("found only %d token switches with a panicking default", n)
 		}
 	})
+	// R3.10: the run terminates: a handler releases its worker slot before it
+	// blocks on the unbuffered package queue (same obligation as C06 R6.8).
+	c.Rule("R3.10", func() {
+		c.Floor("R3.10", 1)
+		slotReleasedBeforeSendObligations(c)
+	})
 }
 
 // alwaysNilValue reports whether v is nil on every path: the constant nil, a φ
